@@ -134,11 +134,22 @@ def run_histories(tier, seed, tofu_modes=(True, False)):
             for hi in range(nh):
                 tofu = rng.choice(tofu_modes)
                 path = Path(tmp) / ("h%d.db" % hi)
-                if tofu not in clients:
-                    clients[tofu] = GeminiClient(timeout=1.0, trust_on_first_use=tofu, tofu_db_path=path if tofu else None)
-                client = clients[tofu]
+                # every history gets its client from the public constructor, with the store's path and with the constructor's other
+                # arguments varied (a caller-supplied TLS context, CA verification on top of TOFU): whatever else is configured,
+                # trust_on_first_use=True means the pin check applies.  The store the client uses is the one IT opened.
+                ctor = rng.choice(["plain", "plain", "own-context", "verify-ssl", "own-context-verify"])
+                kw = {}
+                if ctor in ("own-context", "own-context-verify"):
+                    import ssl as _ssl
+                    cx = _ssl.SSLContext(_ssl.PROTOCOL_TLS_CLIENT); cx.check_hostname = False; cx.verify_mode = _ssl.CERT_NONE
+                    kw["ssl_context"] = cx
+                if ctor in ("verify-ssl", "own-context-verify"): kw["verify_ssl"] = True
+                if not tofu:
+                    if tofu not in clients: clients[tofu] = GeminiClient(timeout=1.0, trust_on_first_use=False)
+                    client = clients[tofu]
+                else:
+                    client = GeminiClient(timeout=1.0, trust_on_first_use=True, tofu_db_path=path, **kw)
                 db = TOFUDatabase(path)
-                if tofu: client.tofu_db = db
                 # a third of the histories start with the same host pinned on two ports with different certificates and
                 # one of the pins then renewed: "pins of different host:port pairs never influence each other"
                 preamble = []
